@@ -2389,3 +2389,15 @@ fire("c15-product-skips-later-factors", ["C15"], COE,
      "            if idx_of_child_with_vars is None or i < idx_of_child_with_vars:\n"
      "                assert len(child_coeffs) == 1\n",
      "K/CoefficientCollector/map_product/all-factors")
+
+fire("c13-export-negative-constant-bare", ["C13"], IA,
+     "        elif isinstance(expr, (int, float)) and expr < 0:\n",
+     "        elif isinstance(expr, (int, float)) and expr < 0 and False:\n",
+     "")
+fire_multi("c13-export-negative-constant-bare-2", ["C13"], IA, [
+    ("        elif isinstance(expr, (int, float)) and expr < 0:\n"
+     "            # ast.unparse writes Constant(-2) as a bare \"-2\", and\n"
+     "            # \"-2 ** x\" is -(2 ** x): emit the sign as an operator.\n"
+     "            return ast.UnaryOp(ast.USub(), ast.Constant(-expr, None))\n",
+     "")],
+    "E/exporter/Constant/negative-not-bare")
